@@ -343,6 +343,12 @@ def getter_programs(api, rng, n, methods=None, exhaustive_byte=False):
         calls = []
         if rng.random() < 0.8:
             calls.append(Call('config_accel', setters=[('with_scale', [rng.choice(['Range2G', 'Range4G', 'Range8G', 'Range16G'])])]))
+        # the getters must not depend on the configuration: vary it (FIFO read circuit off, interrupts on, other blocks)
+        if rng.random() < 0.5:
+            calls.append(Call('config_fifo', setters=[('with_read_disabled', [rng.random() < 0.7])]))
+        for _ in range(rng.choice([0, 0, 1, 2])):
+            mk = rng.choice(sorted(api.maker))
+            calls.append(Call(mk, setters=P.rand_setters(api, rng, api.maker[mk], rng.randint(1, 3))))
         ms = list(methods)
         rng.shuffle(ms)
         calls += [Call(m) for m in ms]
